@@ -705,6 +705,19 @@ Proof.
   rewrite (ctx_extend_get c [] n Hd). destruct (ctx_get c n); reflexivity.
 Qed.
 
+(* a component body (and a template it includes) sees a defined value only under a parameter
+   name, the rest name or `body` *)
+Lemma callee_sees_only_visible : forall d s body c,
+  wf_def d -> build_context_of d s body = ROk c ->
+  forall n, (get_value (state_new c) n <> VUndef \/ get_value (state_include (state_new c)) n <> VUndef) ->
+            visible d body n.
+Proof.
+  intros d s body c W H n Hn.
+  destruct (build_context_binds d s body c W H) as [_ [_ [_ [Hv _]]]].
+  apply Hv. rewrite get_value_state_new, get_value_include_of_new in Hn. unfold ctx_value in Hn.
+  destruct (ctx_get c n); [discriminate|]. destruct Hn as [Hn|Hn]; contradiction.
+Qed.
+
 (* ------------------------------------------------------------------ component table by priority *)
 
 Section Prio.
@@ -1128,4 +1141,65 @@ Proof.
     + split; [reflexivity|]. apply Nat.ltb_lt in L. lia.
     + cbn. replace (depth + 1)%nat with (S depth) by lia. repeat split; reflexivity.
   - apply build_context_of_err in B. subst e. cbn. split; reflexivity.
+Qed.
+
+(* ------------------------------------------------------------------ compiled call sites *)
+
+From TeraV Require Import Model.Instr Corr.CorrC05.
+
+Lemma back_to_endcapture_spec : forall rp,
+  back_to_endcapture rp = true ->
+  exists pre post, rp = pre ++ EndCapture :: post /\ forall i, In i pre -> is_output_instr i = false.
+Proof.
+  induction rp as [|i rp IH]; intros H; [discriminate|].
+  destruct (instr_eqb i EndCapture) eqn:E.
+  - assert (i = EndCapture) by (destruct i; try discriminate; reflexivity). subst i.
+    exists [], rp. split; [reflexivity|intros i []].
+  - assert (H' : is_output_instr i = false /\ back_to_endcapture rp = true).
+    { destruct i; cbn in H; try discriminate; try (split; [reflexivity|exact H]). }
+    destruct H' as [Ho Hb]. destruct (IH Hb) as [pre [post [Erp Hpre]]].
+    exists (i :: pre), post. split; [cbn; rewrite Erp; reflexivity|].
+    intros j [Hj|Hj]; [subst; exact Ho|apply Hpre; exact Hj].
+Qed.
+
+Lemma body_sites_ok_spec : forall rest rp,
+  body_sites_ok rp rest = true ->
+  forall l1 n l2, rest = l1 ++ RenderBodyComponent n :: l2 -> back_to_endcapture (rev l1 ++ rp) = true.
+Proof.
+  induction rest as [|i rest IH]; intros rp H l1 n l2 E.
+  - destruct l1; discriminate.
+  - destruct l1 as [|j l1].
+    + cbn in E. inversion E; subst. cbn in H. apply andb_true_iff in H. apply H.
+    + cbn in E. inversion E; subst. cbn [rev]. rewrite <- app_assoc. cbn [app].
+      eapply IH; [|reflexivity].
+      destruct j; cbn in H; try exact H. apply andb_true_iff in H. apply H.
+Qed.
+
+Lemma capture_before_endcapture : forall a b k,
+  captures_balanced (a ++ EndCapture :: b) k = true -> k = 0%nat -> In Capture a.
+Proof.
+  induction a as [|i a IH]; intros b k H Hk; subst k.
+  - cbn in H. discriminate.
+  - destruct (instr_eqb i Capture) eqn:E.
+    + left. destruct i; try discriminate; reflexivity.
+    + right. destruct i; cbn in H; try discriminate; try (eapply IH; [exact H|reflexivity]).
+Qed.
+
+(* what the decidable check means: every call with a body is preceded, in the same chunk, by an
+   EndCapture with only expression instructions in between (the attribute map), and a Capture
+   opens before that EndCapture: the body is compiled inline in the caller's chunk *)
+Lemma call_sites_ok_spec : forall c,
+  call_sites_ok c = true ->
+  forall l1 n l2, map fst c = l1 ++ RenderBodyComponent n :: l2 ->
+  exists a b, l1 = a ++ EndCapture :: b /\ (forall i, In i b -> is_output_instr i = false) /\ In Capture a.
+Proof.
+  intros c H l1 n l2 E. unfold call_sites_ok in H. apply andb_true_iff in H. destruct H as [Hb Hs].
+  assert (B := body_sites_ok_spec _ _ Hs l1 n l2 E). rewrite app_nil_r in B.
+  destruct (back_to_endcapture_spec _ B) as [pre [post [Er Hpre]]].
+  assert (El : l1 = rev post ++ EndCapture :: rev pre).
+  { rewrite <- (rev_involutive l1), Er, rev_app_distr. cbn [rev]. rewrite <- app_assoc. reflexivity. }
+  exists (rev post), (rev pre). split; [exact El|]. split.
+  - intros i Hi. apply Hpre. apply in_rev. exact Hi.
+  - rewrite E, El in Hb. rewrite <- app_assoc in Hb. cbn [app] in Hb.
+    eapply capture_before_endcapture; [exact Hb|reflexivity].
 Qed.
